@@ -346,6 +346,9 @@ matrixSslCreateIdentity(sslKeys_t *keys, psPubKey_t idkey, psX509Cert_t *cert)
     identity = matrixSslMakeIdentity(keys->pool, idkey, cert);
     if (identity == NULL)
     {
+        /* The key and the chain are ours to release on every failure */
+        psX509FreeCert(cert);
+        psClearPubKey(&idkey);
         return NULL;
     }
 
